@@ -137,7 +137,18 @@ class KGAdverb:
 
 
 class KGChar(str):
-    pass
+    # A character is a one-character string, but never a symbol: without this,
+    # str.__eq__ made KGChar('a') == KGSym('a') true while KGSym('a') == KGChar('a')
+    # is false, so a dictionary holding the key 0ca answered lookups of :a.
+    def __eq__(self, o):
+        return not isinstance(o, KGSym) and str.__eq__(self, o)
+
+    def __ne__(self, o):
+        r = self.__eq__(o)
+        return r if r is NotImplemented else not r
+
+    def __hash__(self):
+        return str.__hash__(self)
 
 
 class KGCond(list):
